@@ -8,6 +8,10 @@ props = [json.loads(l) for l in open(os.path.join(V, 'properties.jsonl'))]
 
 # property -> (technique, level text, level note, design ref) ; absent => not yet claimed
 CLAIMS = {
+    'C07': ('Lean 4 invariant proof over all finite histories of public calls on a pulse and its copies (cache state machine with cleanup sets regenerated from source) + model-vs-implementation correspondence on seeded histories',
+            'Machine-checked proof (Lean 4 kernel, core only) that every public operation preserves cache coherence, that in every reachable state a request for grid g returns a value computed for exactly g from ingredients of g and never an error, and that the answer equals the one of a fresh pulse; the state machine is tied to pulse_sequence.py by the regenerated cleanup/alias/intermediates sets and by running the model and the real objects on the same histories, comparing the 19 cache fields after every call; every returned array is compared with a freshly constructed pulse.',
+            'Cached arrays are abstracted to the grid they were computed for; Python aliasing of arrays between copies and the numerical kernels themselves are covered by measurement (comparison with fresh pulses), not by the theorem.',
+            'DESIGN.md §5 C07'),
     'C01': ('Lean 4 theorems over the executable model (exact segment integral, truncation bound '
             'with the guard read from source, filter-function algebra) + translator-regenerated '
             'einsum/guard definitions + model-vs-implementation correspondence',
